@@ -50,6 +50,8 @@ def run(case, W):
         labels.append("immediate-fail")
     if v.accepted > 2 * s["qcap"]:
         labels.append("wrapped")
+    if v.accepted >= 256:
+        labels.append("256-or-more-accepted")
     if s["input"]:
         labels.append("with-command-lines")
     if t.q["refused_w"]:
